@@ -82,6 +82,8 @@ def main(argv=None):
         obligations += r["obligations"]
         bounded += r["bounded"]
 
+    obligations = _merge(obligations)
+
     # --- vacuity / baseline guards -------------------------------------
     bl_path = HERE / "baseline" / "obligations.json"
     baseline = json.loads(bl_path.read_text()) if bl_path.exists() else {}
@@ -155,6 +157,26 @@ def main(argv=None):
     if undecided or missing:
         return 2
     return 0
+
+
+def _merge(obligations):
+    """several units may contribute paths to the same named obligation (case splits)"""
+    rank = {DISCHARGED: 0, UNDECIDED: 1, REFUTED: 2}
+    out = {}
+    for o in obligations:
+        key = (o["oid"], o.get("witness", "") if o["status"] == REFUTED else "")
+        base = out.get(o["oid"])
+        if base is None:
+            out[o["oid"]] = dict(o)
+            continue
+        base["paths"] += o["paths"]
+        base["time_s"] = round(base["time_s"] + o["time_s"], 4)
+        if o["backend"] and o["backend"] not in base["backend"].split("+"):
+            base["backend"] = "+".join(sorted(set(base["backend"].split("+")) | set(o["backend"].split("+")) - {""}))
+        if rank[o["status"]] > rank[base["status"]]:
+            for k in ("status", "detail", "model", "witness", "replay"):
+                base[k] = o[k]
+    return list(out.values())
 
 
 def write_evidence(mod, prop, tier, seed, results, obligations, bounded,
